@@ -97,9 +97,13 @@ static ssize_t verif_t_sendv(struct qb_ipc_one_way *ow, const struct iovec *iov,
 }
 static void verif_t_fc_set(struct qb_ipc_one_way *ow, int32_t fc) { verif_fcset_calls++; verif_fc_value = fc; }
 static ssize_t verif_t_q_len_get(struct qb_ipc_one_way *ow) { verif_qlen_calls++; return verif_qlen_result; }
+int verif_tdisc_first_state = -1;              /* connection state seen by the FIRST transport disconnect call */
 static void verif_t_disconnect(struct qb_ipcs_connection *c)
 {
 	verif_cb_check_alive(c);
+	if (verif_tdisc_calls == 0) {
+		verif_tdisc_first_state = (int)c->state;
+	}
 	verif_tdisc_calls++; verif_tdisc_at = ++verif_clock;
 }
 
@@ -226,7 +230,7 @@ static void verif_monitor_reset(void)
 {
 	verif_clock = 0;
 	verif_peek_calls = verif_reclaim_calls = verif_trecv_calls = verif_tsend_calls = verif_tsendv_calls = 0;
-	verif_fcset_calls = verif_qlen_calls = verif_tdisc_calls = 0;
+	verif_fcset_calls = verif_qlen_calls = verif_tdisc_calls = 0; verif_tdisc_first_state = -1;
 	verif_peek_at = verif_reclaim_at = verif_tdisc_at = verif_tsend_at = 0;
 	verif_accept_calls = verif_created_calls = verif_msgproc_calls = verif_closed_calls = verif_destroyed_calls = 0;
 	verif_msgproc_at = verif_closed_at = verif_destroyed_at = verif_created_at = 0;
